@@ -225,3 +225,29 @@ contract('mapproxy.seed.config:before_timestamp_from_options', props=['C13'],
          opaque=['timestamp_from_isodate', 'timestamp_before', 'abspath'],
          raises={'SeedConfigurationError': True},
          trace=[_threshold_source])
+
+
+# ---- "now minus weeks/days/hours/minutes/seconds" --------------------------------------------------------------------------------------
+def _relative_threshold(ex, st, post, result):
+    import z3
+    from pyvc.values import VReal, VInt
+    from pyvc.values import to_real
+    now = [e for i, e in T.evs(st, 'time')]
+    g = z3.BoolVal(len(now) == 1 and isinstance(result, (VReal, VInt)))
+    if len(now) == 1 and isinstance(result, (VReal, VInt)) and isinstance(now[0].result, (VReal, VInt)):
+        a = post.old.env if hasattr(post, 'old') and post.old is not None else post.env
+        age = (to_real(a['weeks']) * 604800 + to_real(a['days']) * 86400 + to_real(a['hours']) * 3600
+               + to_real(a['minutes']) * 60 + to_real(a['seconds']))
+        g = z3.And(g, to_real(result) == to_real(now[0].result) - age)
+    else:
+        g = z3.BoolVal(False)
+    yield ('threshold_is_the_epoch_clock_minus_the_age', g,
+           'the threshold is the epoch clock (time.time(), read once) minus exactly 604800*weeks + 86400*days + 3600*hours + '
+           '60*minutes + seconds - not a local wall-clock difference (which is an hour off across a DST switch)')
+
+
+contract('mapproxy.util.times:timestamp_before', props=['C13'],
+         types=dict(weeks='real', days='real', hours='real', minutes='real', seconds='real'), returns='real',
+         default_callee='opaque',
+         opaque_spec={'time': {'returns': 'real', 'pure': False}},
+         trace=[_relative_threshold])
